@@ -168,6 +168,31 @@ def reopen (k : HashKind) (root : LNode) : LNode :=
   | .bin l r fl => .bin l r { fl with hash := none }
   | n => n
 
+/-- `Trie.get(n, prefix, key)` with its side effect: the value, the node with every unresolved node on the way
+REPLACED by what `resolveNode` returned for it (`n.Copy()` with the child re-hung: flags and cached hashes are
+kept), and whether anything was resolved (`didResolve`; `Trie.Get` then stores the new root). -/
+def getR : LNode → Path → HTerm × LNode × Bool
+  | .nil, _ => (.felt 0, .nil, false)
+  | .value v, _ => (v, .value v, false)
+  | .lazy _ sub, key =>
+    let r := getR sub key
+    (r.1, r.2.1, true)
+  | .edge p c fl, key =>
+    if p.isPrefixOf key then
+      let r := getR c (key.drop p.length)
+      (r.1, if r.2.2 then .edge p r.2.1 fl else .edge p c fl, r.2.2)
+    else (.felt 0, .edge p c fl, false)
+  | .bin l r fl, key =>
+    match key with
+    | [] => (.felt 0, .bin l r fl, false)
+    | b :: ks =>
+      if b then
+        let x := getR r ks
+        (x.1, if x.2.2 then .bin l x.2.1 fl else .bin l r fl, x.2.2)
+      else
+        let x := getR l ks
+        (x.1, if x.2.2 then .bin x.2.1 r fl else .bin l r fl, x.2.2)
+
 end TrieL
 
 /-- operations of a trie2 trie across restarts -/
@@ -175,6 +200,7 @@ inductive LOp where
   | put (key : Path) (v : HTerm)
   | hash
   | reopen              -- Commit(), persist, drop the object, open a new one
+  | get (key : Path)    -- `Trie.Get(key)`: resolves (and keeps resolved) the nodes on the way
 deriving Repr
 
 /-- `Trie.Hash()`: the root with caches filled -/
@@ -185,6 +211,7 @@ def TrieL.step (k : HashKind) (root : LNode) : LOp → LNode
   | .put key v => TrieL.update root key v
   | .hash => TrieL.hashRoot k root
   | .reopen => TrieL.reopen k (TrieL.hashRoot k root)
+  | .get key => (TrieL.getR root key).2.1
 
 def TrieL.run (k : HashKind) (ops : List LOp) : LNode := ops.foldl (TrieL.step k) .nil
 
